@@ -984,7 +984,7 @@ PROPS = {
     ),
     "C18": dict(
         retry_on_failure=True,
-        suites=["c18"],
+        suites=["c18", "c18h3"],
         judge=judge_c18,
         level="proof",
         rule="HttpDemux::select on 4 configurations (speedtest on/off, reverse proxy with mask /rp, /, none) x 3 protocols x {GET, POST, "
@@ -995,12 +995,18 @@ PROPS = {
              "WebSocket-style exchange against a real loopback origin with both values of the egress policy; an authenticator is "
              "configured and no request carries credentials"
              " The reverse-proxy exchange outlives the session poll timeout (300 ms; late origin bytes at 900 ms), through a tunnel "
-             "host's path mask and on a connection of the reverse-proxy host itself",
+             "host's path mask and on a connection of the reverse-proxy host itself."
+             " HTTP/3 (suite c18h3, wall clock): the real QUIC listener with an authenticator configured and ping / speedtest / "
+             "reverse-proxy host entries, for both values of the egress policy: ping by marker and on the ping host (200, no body, "
+             "stream ended), the speedtest table on the tunnel host's /speed path and on the speedtest host (status and exact body "
+             "length compared with the model; 17 and 100 MiB in the thorough tier), reverse proxy through the path mask and on the "
+             "reverse-proxy host (the origin must see the request line, X-Original-Protocol: http3 and the end-to-end header; the client "
+             "the origin's status, header and body)",
         explanation="theorems demux_precedence, download_accept_iff, download_exact, download_completes, upload_accept_iff, else_400, "
                     "post_other_path_400, upload_done, upload_counts, x_original_protocol_present about TT/Model/Services.lean",
         trusted=["Rust's u32 FromStr as modelled by parseU32 (optional '+', digits, range)", "http crate Uri::path()",
                  "the reverse-proxy destination is settings.reverse_proxy.server_address by construction (read from reverse_proxy.rs, "
-                 "exercised by the loopback-origin run); HTTP/3 reverse proxy not driven",
+                 "exercised by the loopback-origin runs, HTTP/3 included)",
                  "100 MiB downloads are run in the thorough tier only"],
         assumptions=["'/+5mb.bin' and '/05mb.bin' are accepted as 5 MiB (Rust integer syntax): not asserted either way"],
     ),
